@@ -328,6 +328,9 @@ func newHarnessMode(stream bool) *harness {
 	h := &harness{slots: map[string]*slot{}}
 	opt := rig.Options(func(o *config.Options) {
 		o.StreamRequestBody = stream
+		// (the streaming engine also runs without the default content type, so that an absent
+		// Content-Type of the response is observable as absent)
+		o.NoDefaultContentType = stream
 		// a tracer, so that the context's trace info is live and takes part in the reset
 		o.Tracers = append(o.Tracers, nopTracer{})
 		o.TraceLevel = stats.LevelDetailed
